@@ -28,6 +28,9 @@ Extract/C14x.vos Extract/C14x.vok Extract/C14x.required_vos: Extract/C14x.v Mode
 Extract/C15x.vo Extract/C15x.glob Extract/C15x.v.beautified Extract/C15x.required_vo: Extract/C15x.v Model/FmtEdit.vo
 Extract/C15x.vio: Extract/C15x.v Model/FmtEdit.vio
 Extract/C15x.vos Extract/C15x.vok Extract/C15x.required_vos: Extract/C15x.v Model/FmtEdit.vos
+Extract/C16x.vo Extract/C16x.glob Extract/C16x.v.beautified Extract/C16x.required_vo: Extract/C16x.v Model/Rename.vo
+Extract/C16x.vio: Extract/C16x.v Model/Rename.vio
+Extract/C16x.vos Extract/C16x.vok Extract/C16x.required_vos: Extract/C16x.v Model/Rename.vos
 Extract/C17x.vo Extract/C17x.glob Extract/C17x.v.beautified Extract/C17x.required_vo: Extract/C17x.v Model/Debug.vo Spec/C17Judge.vo
 Extract/C17x.vio: Extract/C17x.v Model/Debug.vio Spec/C17Judge.vio
 Extract/C17x.vos Extract/C17x.vok Extract/C17x.required_vos: Extract/C17x.v Model/Debug.vos Spec/C17Judge.vos
@@ -70,6 +73,9 @@ Model/LspText.vos Model/LspText.vok Model/LspText.required_vos: Model/LspText.v
 Model/OrderOblivious.vo Model/OrderOblivious.glob Model/OrderOblivious.v.beautified Model/OrderOblivious.required_vo: Model/OrderOblivious.v 
 Model/OrderOblivious.vio: Model/OrderOblivious.v 
 Model/OrderOblivious.vos Model/OrderOblivious.vok Model/OrderOblivious.required_vos: Model/OrderOblivious.v 
+Model/Rename.vo Model/Rename.glob Model/Rename.v.beautified Model/Rename.required_vo: Model/Rename.v 
+Model/Rename.vio: Model/Rename.v 
+Model/Rename.vos Model/Rename.vok Model/Rename.required_vos: Model/Rename.v 
 Model/Resource.vo Model/Resource.glob Model/Resource.v.beautified Model/Resource.required_vo: Model/Resource.v 
 Model/Resource.vio: Model/Resource.v 
 Model/Resource.vos Model/Resource.vok Model/Resource.required_vos: Model/Resource.v 
@@ -133,6 +139,9 @@ Proofs/C14Proofs.vos Proofs/C14Proofs.vok Proofs/C14Proofs.required_vos: Proofs/
 Proofs/C15Proofs.vo Proofs/C15Proofs.glob Proofs/C15Proofs.v.beautified Proofs/C15Proofs.required_vo: Proofs/C15Proofs.v Model/FmtEdit.vo
 Proofs/C15Proofs.vio: Proofs/C15Proofs.v Model/FmtEdit.vio
 Proofs/C15Proofs.vos Proofs/C15Proofs.vok Proofs/C15Proofs.required_vos: Proofs/C15Proofs.v Model/FmtEdit.vos
+Proofs/C16Proofs.vo Proofs/C16Proofs.glob Proofs/C16Proofs.v.beautified Proofs/C16Proofs.required_vo: Proofs/C16Proofs.v Model/Rename.vo
+Proofs/C16Proofs.vio: Proofs/C16Proofs.v Model/Rename.vio
+Proofs/C16Proofs.vos Proofs/C16Proofs.vok Proofs/C16Proofs.required_vos: Proofs/C16Proofs.v Model/Rename.vos
 Proofs/C17Inv.vo Proofs/C17Inv.glob Proofs/C17Inv.v.beautified Proofs/C17Inv.required_vo: Proofs/C17Inv.v Model/Debug.vo
 Proofs/C17Inv.vio: Proofs/C17Inv.v Model/Debug.vio
 Proofs/C17Inv.vos Proofs/C17Inv.vok Proofs/C17Inv.required_vos: Proofs/C17Inv.v Model/Debug.vos
@@ -199,6 +208,9 @@ Properties/C14.vos Properties/C14.vok Properties/C14.required_vos: Properties/C1
 Properties/C15.vo Properties/C15.glob Properties/C15.v.beautified Properties/C15.required_vo: Properties/C15.v Model/FmtEdit.vo Proofs/C15Proofs.vo
 Properties/C15.vio: Properties/C15.v Model/FmtEdit.vio Proofs/C15Proofs.vio
 Properties/C15.vos Properties/C15.vok Properties/C15.required_vos: Properties/C15.v Model/FmtEdit.vos Proofs/C15Proofs.vos
+Properties/C16.vo Properties/C16.glob Properties/C16.v.beautified Properties/C16.required_vo: Properties/C16.v Model/Rename.vo Proofs/C16Proofs.vo
+Properties/C16.vio: Properties/C16.v Model/Rename.vio Proofs/C16Proofs.vio
+Properties/C16.vos Properties/C16.vok Properties/C16.required_vos: Properties/C16.v Model/Rename.vos Proofs/C16Proofs.vos
 Properties/C17.vo Properties/C17.glob Properties/C17.v.beautified Properties/C17.required_vo: Properties/C17.v Model/Debug.vo Proofs/C17Inv.vo Proofs/C17Proofs.vo
 Properties/C17.vio: Properties/C17.v Model/Debug.vio Proofs/C17Inv.vio Proofs/C17Proofs.vio
 Properties/C17.vos Properties/C17.vok Properties/C17.required_vos: Properties/C17.v Model/Debug.vos Proofs/C17Inv.vos Proofs/C17Proofs.vos
